@@ -867,40 +867,106 @@ func ruleRawString(c *Ctx) *RuleResult {
 
 // T-NUMBER: number tokens are decimal.
 func ruleNumberBase(c *Ctx) *RuleResult {
-	r := &RuleResult{Doc: "index and slice numbers are converted from the token text in base 10 (strconv.Atoi, or ParseInt with base 10)", Floor: 2}
-	for _, name := range []string{"parseIndexExpression", "parseSliceExpression"} {
-		fn := c.method("Parser", name)
+	r := &RuleResult{Doc: "every integer conversion reachable from Parse converts a token's text in base 10 (strconv.Atoi, or ParseInt/ParseUint with base 10): index and slice numbers are decimal", Floor: 1}
+	// functions reachable from Parse through static calls inside the library
+	reach := map[*ssa.Function]bool{}
+	var visit func(f *ssa.Function)
+	visit = func(f *ssa.Function) {
+		if f == nil || reach[f] || f.Pkg != c.SLib {
+			return
+		}
+		reach[f] = true
+		for _, b := range f.Blocks {
+			for _, in := range b.Instrs {
+				if call, ok := in.(*ssa.Call); ok {
+					visit(staticCallee(call))
+					for _, a := range call.Call.Args {
+						switch fv := a.(type) {
+						case *ssa.Function:
+							visit(fv)
+						case *ssa.MakeClosure:
+							if cf, ok := fv.Fn.(*ssa.Function); ok {
+								visit(boundTarget(cf))
+								visit(cf)
+							}
+						}
+					}
+				}
+			}
+		}
+		for _, an := range f.AnonFuncs {
+			visit(an)
+		}
+	}
+	visit(c.A.Parse)
+	isTokenText := func(v ssa.Value) bool {
+		base, fld, ok := fieldRead(v)
+		if !ok {
+			return false
+		}
+		t := base.Type()
+		if pt, ok := t.Underlying().(*types.Pointer); ok {
+			t = pt.Elem()
+		}
+		return types.Identical(t, c.A.TokenT) && fieldName(c.A.TokenT, fld) == "value"
+	}
+	var fns []*ssa.Function
+	for f := range reach {
+		fns = append(fns, f)
+	}
+	sort.Slice(fns, func(i, j int) bool { return fns[i].Pos() < fns[j].Pos() })
+	for _, fn := range fns {
+		if fn == c.A.Tokenize || (fn.Signature.Recv() != nil && strings.Contains(fn.Signature.Recv().Type().String(), "Lexer")) {
+			continue // the lexer does not convert numbers; literals are T-DECODE's
+		}
 		n := 0
 		for _, b := range fn.Blocks {
 			for _, in := range b.Instrs {
 				call, ok := in.(*ssa.Call)
-				if !ok || !strings.HasPrefix(calleeName(call), "strconv.") {
+				if !ok {
 					continue
 				}
 				nm := calleeName(call)
-				if strings.HasPrefix(nm, "strconv.Quote") || strings.HasPrefix(nm, "strconv.Format") {
+				if nm != "strconv.Atoi" && nm != "strconv.ParseInt" && nm != "strconv.ParseUint" {
 					continue
 				}
 				n++
 				r.Instances++
-				key := fmt.Sprintf("%s|convert#%d", name, n)
+				key := fmt.Sprintf("%s|convert#%d", fn.Name(), n)
 				arg := c.symStr(call.Call.Args[0], 0)
-				okArg := strings.Contains(arg, "lookaheadToken(") && strings.HasSuffix(arg, ".value")
+				okArg := isTokenText(call.Call.Args[0])
+				if !okArg {
+					if p, ok := call.Call.Args[0].(*ssa.Parameter); ok {
+						// a helper that is handed the text: every call site passes a token's text
+						sites, good := 0, 0
+						for _, caller := range allFuncs(c.SLib) {
+							for _, cs := range callsTo(caller, fn) {
+								sites++
+								for i, q := range fn.Params {
+									if q == p && i < len(cs.Call.Args) && isTokenText(cs.Call.Args[i]) {
+										good++
+									}
+								}
+							}
+						}
+						okArg = sites > 0 && sites == good
+					}
+				}
 				okBase := nm == "strconv.Atoi"
 				if nm == "strconv.ParseInt" || nm == "strconv.ParseUint" {
 					if k, ok := constInt(call.Call.Args[1]); ok && k == 10 {
 						okBase = true
 					}
 				}
-				if okArg && okBase {
+				switch {
+				case okArg && okBase:
 					r.ok(key, c.pos(call.Pos()), fname(fn), nm+"("+arg+"): decimal")
-				} else {
+				case !okBase:
 					r.viol(key, c.pos(call.Pos()), fname(fn), fmt.Sprintf("number converted by %s(%s…): must be a base-10 conversion of the token text (leading zeros are not octal)", nm, arg))
+				default:
+					r.undecided(key, c.pos(call.Pos()), fname(fn), fmt.Sprintf("%s(%s): cannot tell that the converted text is a token's text", nm, arg))
 				}
 			}
-		}
-		if n == 0 {
-			r.viol(name+"|convert", c.pos(fn.Pos()), fname(fn), "no number conversion found")
 		}
 	}
 	return r
